@@ -43,7 +43,8 @@ ASSUMPTIONS = [
 REQUIRED_CLASSES = ["node:builtin:abs", "node:builtin:round", "node:builtin:round+params", "node:builtin:divmod+params",
                     "node:call", "node:call+kwargs", "node:computed-key", "node:literal-expr", "node:un:-", "node:un:~",
                     "node:eq", "node:bin:arith", "follow-up:orig:setv", "follow-up:copy:setv", "follow-up:both:sete",
-                    "default-container:items-and-attributes-mixed"]
+                    "default-container:items-and-attributes-mixed", "default-container:frozen-when-pickled",
+                    "default-container:setter-generated-before-pickling"]
 
 TEMPLATES = ["abs", "round0", "round1", "round_ref", "divmod", "divmod_ref", "floor", "ceil", "trunc", "neg", "pos",
              "invert", "eq", "neq", "litexpr", "call_pos", "call_kw", "call_kw_ref", "comp_item", "bitand", "shift",
@@ -379,10 +380,24 @@ def dc_cases(draw):
         reads = [access() for _ in range(draw(st.integers(1, 2)))]
         reads = [r for r in reads if r[1] != tgt[1]] or [[tgt[0], next(k for k in DC_KEYS if k != tgt[1])]]
         return {"target": tgt, "reads": reads, "op": draw(st.sampled_from(["+", "*", "-"])), "k": draw(dc_numbers)}
-    return {"kind": "default-container", "init": {k: draw(dc_numbers) for k in DC_KEYS},
-            "before": [statement() for _ in range(draw(st.integers(1, 5)))],
-            "after": [dict(statement(), who=draw(st.sampled_from(["both", "both", "orig", "copy"])))
-                      for _ in range(draw(st.integers(2, 6)))]}
+    c = {"kind": "default-container", "init": {k: draw(dc_numbers) for k in DC_KEYS},
+         "before": [statement() for _ in range(draw(st.integers(1, 5)))],
+         "after": [dict(statement(), who=draw(st.sampled_from(["both", "both", "orig", "copy"])))
+                   for _ in range(draw(st.integers(2, 6)))]}
+    # the manager may be FROZEN when it is pickled (the copy must then reject what the original rejects), and a setter
+    # function may have been generated from it before (gen_fun must leave nothing unpicklable behind); the follow-up then
+    # also calls the setters of both managers and may unfreeze both
+    c["frozen"] = draw(st.integers(0, 3)) == 0
+    c["genfun"] = access() if draw(st.integers(0, 2)) == 0 else None
+    extra = []
+    if c["frozen"] and draw(st.booleans()):
+        extra.append({"call": "unfreeze", "who": "both"})
+    if c["genfun"]:
+        for _ in range(draw(st.integers(1, 2))):
+            extra.append({"call": "setter", "value": draw(dc_numbers), "who": draw(st.sampled_from(["both", "orig", "copy"]))})
+    for x in extra:
+        c["after"].insert(draw(st.integers(0, len(c["after"]))), x)
+    return c
 
 
 def dc_exec(ctx, case):
@@ -395,7 +410,15 @@ def dc_exec(ctx, case):
     def get(r, acc):
         return r[acc[1]] if acc[0] == "item" else getattr(r, acc[1])
 
+    funs = {}
+
     def run(r, stm):
+        if stm.get("call") == "unfreeze":
+            r._manager.unfreeze_tree()
+            return
+        if stm.get("call") == "setter":
+            funs[id(r._manager)](stm["value"])
+            return
         if "value" in stm:
             v = stm["value"]
         else:
@@ -414,13 +437,17 @@ def dc_exec(ctx, case):
                 {k: repr(v) for k, v in sorted(vars(o).items())})
 
     def text(stm):
+        if "call" in stm:
+            return "unfreeze_tree()" if stm["call"] == "unfreeze" else f"setter({stm['value']!r})"
         t = (f"r[{stm['target'][1]!r}]" if stm["target"][0] == "item" else f"r.{stm['target'][1]}")
         if "value" in stm:
             return f"{t} = {stm['value']!r}"
         rs = [(f"r[{k!r}]" if h == "item" else f"r.{k}") for h, k in stm["reads"]]
         return f"{t} = {(' ' + stm['op'] + ' ').join(rs)} {stm['op']} {stm['k']!r}"
     rendered = {"container": "Manager.ref(label='r') default (xdeps AttrDict)", "init": case["init"],
-                "before_pickle": [text(s) for s in case["before"]],
+                "before_pickle": [text(s) for s in case["before"]] +
+                (["setter = gen_fun('setter', v=" + ("r[%r]" % case["genfun"][1] if case["genfun"][0] == "item" else "r." + case["genfun"][1]) + ")"]
+                 if case.get("genfun") else []) + (["freeze_tree()"] if case.get("frozen") else []),
                 "follow_up": [f"[{s['who']}] {text(s)}" for s in case["after"]]}
     classes = ["default-container"]
     m = xdeps.Manager()
@@ -433,8 +460,18 @@ def dc_exec(ctx, case):
     except Exception:
         ctx.stats.case(rendered, False, classes + ["default-container:history-raises"])
         return None
-    mixed = len({s["target"][0] for s in case["before"] + case["after"]} |
-                {a[0] for s in case["before"] + case["after"] for a in s.get("reads", [])}) == 2
+    plain = [s for s in case["before"] + case["after"] if "call" not in s]
+    mixed = len({s["target"][0] for s in plain} | {a[0] for s in plain for a in s.get("reads", [])}) == 2
+    if case.get("genfun"):
+        classes.append("default-container:setter-generated-before-pickling")
+        try:
+            funs[id(m)] = m.gen_fun("setter", v=get(r, case["genfun"]))
+        except Exception as e:
+            ctx.stats.case(rendered, False, classes)
+            return Failure(f"C12:default-container:gen_fun-raises:{type(e).__name__}", dict(rendered, raised=repr(e)[:200]))
+    if case.get("frozen"):
+        classes.append("default-container:frozen-when-pickled")
+        m.freeze_tree()
     nt = mixed and any("reads" in s for s in case["before"])
     if mixed:
         classes.append("default-container:items-and-attributes-mixed")
@@ -444,6 +481,12 @@ def dc_exec(ctx, case):
         ctx.stats.case(rendered, nt, classes)
         return Failure(f"C12:default-container:pickle-raises:{type(e).__name__}", dict(rendered, raised=repr(e)[:200]))
     r2 = m2.containers["r"]
+    if case.get("genfun"):
+        try:
+            funs[id(m2)] = m2.gen_fun("setter", v=get(r2, case["genfun"]))
+        except Exception as e:
+            ctx.stats.case(rendered, nt, classes)
+            return Failure(f"C12:default-container:gen_fun-raises-on-copy:{type(e).__name__}", dict(rendered, raised=repr(e)[:200]))
     if views(r) != views(r2) or views(r)[0] != views(r)[1]:
         ctx.stats.case(rendered, nt, classes)
         return Failure("C12:default-container:contents-differ", dict(rendered, step="after the round trip",
